@@ -219,7 +219,20 @@ def table_relabelled(rng, recs):
     return [dict(r, chain=cmap[r["chain"]], num=r["num"] + c, lchain=r["lchain"] + "q") for r in recs], cmap, c
 
 
-def table_icode_siblings(rng, recs):
+def table_atom_at_origin(rng, recs):
+    """the table translated (exactly, in thousandths) so that one base atom sits at 0.000 0.000 0.000"""
+    cand = [r for r in recs if "'" not in r["name"] and not r["name"].startswith(("P", "OP", "O1P", "O2P", "H"))]
+    if not cand:
+        return None
+    a = rng.choice(cand)
+    t = [-a["x"], -a["y"], -a["z"]]
+    out = [dict(r, x=r["x"] + t[0], y=r["y"] + t[1], z=r["z"] + t[2]) for r in recs]
+    if any(not (-999999 <= c <= 9999999) for r in out for c in (r["x"], r["y"], r["z"])):
+        return None
+    return out
+
+
+def table_icode_siblings(rng, recs, descending=False):
     """order-preserving renumbering in which runs of 2-3 consecutive residues of a chain share the number and differ
     only in the insertion code (n, nA, nB — conventional tRNA numbering); label numbering is left as it is"""
     # only for tables whose residues are listed in ascending (number, icode) order inside every chain: the new
@@ -244,7 +257,8 @@ def table_icode_siblings(rng, recs):
             num, pos, run = state.get(r["chain"], (rng.randint(1, 40), 0, 0))
             if pos >= run:
                 num, pos, run = num + 1, 0, rng.choice([1, 2, 2, 3])
-            new = (num, [None, "A", "B"][pos])
+            # descending: the inserted residues come first (9B, 9A, 9) - file order is then not the library's residue order
+            new = (num, ([None, "A", "B"][:run][::-1] if descending else [None, "A", "B"])[pos])
             state[r["chain"]] = (num, pos + 1, run)
         out.append(dict(r, num=new[0], icode=new[1]))
     return out
